@@ -381,6 +381,11 @@ def main(argv):
     if exe_model is not None and text:
         impl_out, model_out, crashed = execute(text)
         an = analyse(impl_out, model_out)
+        if P.get("impl_monitor"):
+            for f in P["impl_monitor"](text, impl_out):
+                f.setdefault("impl", []); f.setdefault("spec", [])
+                an["monitor"].append(f)
+            an["n_monitor"] += impl_out.count("\n")
         if replay:
             print("--- implementation ---\n" + impl_out[-4000:])
             print("--- model / spec ---\n" + model_out[-4000:])
